@@ -58,6 +58,9 @@ Embeds(row, v, d, opt) ==
     [] row = "it.aic.from_base32" -> TRUE
     [] row = "de.stnr.to_country_number" -> Len(d) = 13
     [] row = "de.stnr.to_regional_number" -> TRUE
+    [] row \in {"meid.format_hex", "meid.format_dec", "meid.compact_keep"} ->      \* d = the validated result, check digit kept; opt = "1" when the source had one
+         /\ Len(d) = (IF row = "meid.format_dec" \/ opt = <<49>> THEN 15 ELSE 14)     \* (validate() always completes the decimal form)
+         /\ Slice(d, 1, 14) = v
     [] row = "mac.to_eui48" -> LowerAscii(Delete(d, {58, 45})) = LowerAscii(Delete(v, {58, 45}))
     [] OTHER -> TRUE
 
